@@ -88,8 +88,9 @@ def query_src(rng, cls):
         elif x < 0.22:
             feat = "subquery-term-in-select"
             s = "%s.from_(C).select(C.a, %s.from_(A).select(fn.Max(A.a)).as_('m'))" % (qn, qn)
-        elif x < 0.26 and cls == "clickhouse":
-            s += ".limit_by(1, A.a)"
+        elif x < 0.30 and cls == "clickhouse":
+            s += rng.choice([".limit_by(1, A.a)", ".limit_offset_by(2, 3, A.a, C.b)", ".limit_offset_by(4, 0, A.b)",
+                             ".limit_by(2, A.a).limit(5).offset(1)"])
     elif kind == "insert":
         s = "%s.into(A).columns(A.a, 'b').insert(1, %s)" % (qn, rng.choice(["2", "'x'", "C.a", "A.b"]))
         if cls == "mysql" and rng.random() < 0.4:
@@ -123,7 +124,22 @@ def query_src(rng, cls):
     return s, feat
 
 
+# dialect clauses with scalar parts next to their terms (run in both tiers): the rewrite keeps the scalars
+FIXED_QUERIES = [
+    ("clickhouse", "ClickHouseQuery.from_(A).select(A.a, A.b).limit_offset_by(2, 3, A.a, C.b).join(C).on(A.a == C.a)"),
+    ("clickhouse", "ClickHouseQuery.from_(A).select(A.a).limit_offset_by(4, 0, A.b)"),
+    ("clickhouse", "ClickHouseQuery.from_(A).select(A.a).limit_by(2, A.a).limit(5).offset(1)"),
+    ("clickhouse", "ClickHouseQuery.from_(C).select(C.a).where(C.a.isin(ClickHouseQuery.from_(A).select(A.a).limit_offset_by(1, 7, A.a)))"),
+    ("mssql", "MSSQLQuery.from_(A).select(A.a).top(3).orderby(A.b)"),
+    ("generic", "Query.from_(A).select(A.a).orderby(A.b).limit(3).offset(2)"),
+    ("mysql", "MySQLQuery.from_(A).select(A.a).for_update(nowait=True).limit(1)"),
+]
+
+
 def generate(rng, n, tier):
+    for tabdef in ("T('ta')", "T('ta').as_('ax')"):
+        for cls, src in FIXED_QUERIES:
+            yield {"kind": "query", "src": src, "A": tabdef, "feat": None, "cls": cls}
     for i in range(n):
         tabdef = rng.choice(["T('ta')", "T('ta')", "T('ta', schema='s')", "T('ta').as_('ax')"])
         if i % 2 == 0:
